@@ -17,6 +17,8 @@ Spec = {"nodes": [node, ...]}; node index = creation order.  Node kinds:
                                  (so a source can be registered before an earlier stored node)
   unpack {"k":"unpack","of":ARG,"n":int,"scope":[..]}      (plan.unpack; elements are {"u":i,"j":j})
   gather {"k":"gather","v":ARG,"scope":[..]}              (explicit plan.gather)
+     (an L / T ARG may carry "same":true : its leading equal children are ONE python object placed at
+      several positions)
 ARG  = {"c":CONST} | {"n":i} | {"u":i,"j":j} | {"L":[ARG]} | {"T":[ARG]} | {"S":[ARG]}
      (an L / S / D ARG may carry "sh":slot : the SAME mutable python object is passed at every use of the
       slot, mutated in place to the contents given at that use -- build histories, C02)
@@ -357,6 +359,10 @@ class Gen:
         if k in ("L", "T"):
             n = d(st.integers(0, 3))
             out = {k: [self.arg(depth + 1, hashable) for _ in range(n)]}
+            if self.shared and n and d(st.integers(0, 5)) == 0 and not _uses_slots(out[k][0]):
+                # the very same child OBJECT at several positions (row = [x, y]; [row, row]): no cycle, just sharing
+                out[k] = [out[k][0]] * d(st.integers(2, 3)) + out[k][1:]
+                out["same"] = True
             if k == "L" and self.shared and d(st.integers(0, 2)) == 0:
                 self._share(out, "L")
             return out
